@@ -17,6 +17,9 @@ def run(rep, tier, seed, replay):
                 "a case-insensitive literal, or a class)")
     exprs = lib.inputs(rep, "C11", tier, seed, 2500, 30000, replay, trees=False, lits=["a", "b", "A", "é", "É", "ǆ", "ǅ", "1", ".", "..", "s", "ſ", "k", "K", "ß", "σ", "ς", "中", "x.y", "\\*"])
     if replay is None:
+        import gen as _ger
+        exprs += [e for e in _ger.exact_repetition_family() if e not in set(exprs)]
+    if replay is None:
         import gen as _gfc
         exprs += [e for e in _gfc.flag_class_family() if e not in set(exprs)]
     if replay is None:
